@@ -301,6 +301,62 @@ impl<T: Ord> PairingHeap<T> {
     }
 }
 
+#[cfg(futures_intrusive_verif)]
+impl<T> HeapNode<T> {
+    /// Returns the addresses of (parent, prev, next, first_child) (0 = None)
+    pub fn verif_links(&self) -> (usize, usize, usize, usize) {
+        (
+            self.parent.map_or(0, |p| p.as_ptr() as usize),
+            self.prev.map_or(0, |p| p.as_ptr() as usize),
+            self.next.map_or(0, |p| p.as_ptr() as usize),
+            self.first_child.map_or(0, |p| p.as_ptr() as usize),
+        )
+    }
+}
+
+#[cfg(futures_intrusive_verif)]
+impl<T: Ord> PairingHeap<T> {
+    /// Returns the address of the root node (0 = None)
+    pub fn verif_root(&self) -> usize {
+        self.root.map_or(0, |p| p.as_ptr() as usize)
+    }
+
+    /// Walks the heap depth first (node, then its children from first to
+    /// last) without modifying it.
+    /// For every node `f(addr, None)` is called first. Only if this returns
+    /// `true` the node gets dereferenced and `f(addr, Some(node))` is called.
+    /// The walk ends when `f` returns `false`.
+    pub unsafe fn verif_walk(
+        &self,
+        f: &mut dyn FnMut(usize, Option<&HeapNode<T>>) -> bool,
+    ) {
+        unsafe fn walk<T>(
+            node: NonNull<HeapNode<T>>,
+            f: &mut dyn FnMut(usize, Option<&HeapNode<T>>) -> bool,
+        ) -> bool {
+            let addr = node.as_ptr() as usize;
+            if !f(addr, None) {
+                return false;
+            }
+            let node_ref = &*(node.as_ptr() as *const HeapNode<T>);
+            if !f(addr, Some(node_ref)) {
+                return false;
+            }
+            let mut child = node_ref.first_child;
+            while let Some(c) = child {
+                if !walk(c, f) {
+                    return false;
+                }
+                child = (&*(c.as_ptr() as *const HeapNode<T>)).next;
+            }
+            true
+        }
+        if let Some(root) = self.root {
+            walk(root, f);
+        }
+    }
+}
+
 #[cfg(all(test, feature = "std"))]
 mod tests {
     use super::{HeapNode, PairingHeap};
